@@ -107,6 +107,8 @@ def shards(tier, seed):
         s.append(('wsgi', wb))
     for size in ((9000, 70000) if tier == 'quick' else (9000, 20000, 70000, 300000)):
         s.append(('large', size))
+    for count in ((300, 1200, 2500) if tier == 'quick' else (300, 1200, 2500, 10000)):
+        s.append(('many', count))
     return s
 
 
@@ -151,6 +153,8 @@ def work(spec):
         return work_search(arg)
     if kind == 'large':
         return work_large(arg)
+    if kind == 'many':
+        return work_many(arg)
     return work_wsgi(arg)
 
 
@@ -279,6 +283,43 @@ def work_large(size):
     return res
 
 
+def many_body(count):
+    b = b'bnd'
+    parts = [(b'Content-Disposition: form-data; name="f%d"' % i, b'v%d' % i) for i in range(count)]
+    body, lay = refmp.build(b, parts, epilogue=CRLF)
+    return b, body, lay
+
+
+def many_divisions(L):
+    yield (L,)
+    yield (L // 2, L)
+    yield (L // 3, 2 * L // 3, L)
+    for step in (1000, 4096, 30000):
+        yield tuple(range(step, L, step)) + (L,)
+
+
+def work_many(count):
+    """a well-formed form of very many small fields: every division gives the result of the one-piece parse (= the encoder layout)"""
+    res = core.new_result()
+    mp = _mp()
+    b, body, lay = many_body(count)
+    exp_sections = [[n, tuple(se)] for n, se in lay['sections']]
+    for cuts in many_divisions(len(body)):
+        got = result_of(feed_cuts(mp, b, body, cuts))
+        res['states'] += 1
+        res['transitions'] += len(cuts)
+        res['execs'] += 1
+        res['nontrivial'] += 1
+        res['counters']['many_parts_divisions'] += 1
+        res['outcomes'].add(f'many parts: error={got[1]}')
+        if got != (exp_sections, None):
+            core.add_violation(res, {'kind': 'many', 'count': count, 'cuts': list(cuts) if len(cuts) < 8 else [cuts[0], 'step', cuts[1] - cuts[0]]},
+                               f'{count} fields ({len(body)} bytes) fed in {len(cuts)} piece(s): error={got[1]}, {len(got[0])} sections; the body has {len(exp_sections)}',
+                               sig=f'many:{got[1]}')
+    core.add_sample(res, {'fields': count, 'bytes': len(body)})
+    return res
+
+
 # ---- WSGI layer ---------------------------------------------------------------------------------------------
 
 def _app_and_expect(fields, boundary, epi):
@@ -367,6 +408,17 @@ def replay(case):
         exp = ('200 OK', ef, eff)
         return None if got[:3] == exp else f'{case["framing"]} division {case["arg"]} M={case["M"]} of {body!r}: got {got}, expected {exp}'
     mp = _mp()
+    if k == 'many':
+        b, body, lay = many_body(case['count'])
+        cuts = case['cuts']
+        if len(cuts) == 3 and cuts[1] == 'step':
+            cuts = tuple(range(cuts[2], len(body), cuts[2])) + (len(body),)
+        got = result_of(feed_cuts(mp, b, body, cuts))
+        exp_sections = [[n, tuple(se)] for n, se in lay['sections']]
+        if got == (exp_sections, None):
+            return None
+        return (f'a well-formed multipart form of {case["count"]} small fields ({len(body)} bytes, boundary {b!r}) fed to the parser in {len(cuts)} piece(s) '
+                f'(ends {list(cuts)[:6]}...): error={got[1]}, {len(got[0])} sections found; the body has {len(exp_sections)} sections')
     if k == 'large':
         b, body, lay = large_body(case['size'])
         got = result_of(feed_cuts(mp, b, body, case['cuts']))
